@@ -277,6 +277,21 @@ def value_verdicts(case, res):
                         break
         if res.leftovers[ci]:
             out.append(("%s/%s/payload-left-in-queue-after-call" % (name, mode), "after call %d: %r" % (ci, short(res.leftovers[ci]))))
+    # a call that can never complete although every input was processed and nothing is pending any more: its results were lost
+    # or mis-indexed inside the pool (a pure liveness problem - everything yielded, consumer still waiting - is C02's verdict)
+    if isinstance(res.outcome, tuple) and res.outcome[0] == "deadlock" and not res.left_context and res.calls_done < len(case["calls"]) \
+            and len(res.outputs) > res.calls_done and res.ctx is not None:
+        ci = res.calls_done
+        call = case["calls"][ci]
+        exp = expected_for(call, ci)
+        got = res.outputs[ci]
+        processed = {e[2] for e in res.log if e[0] == "item" and e[2] // 1000 == ci}
+        pending = [it for q in res.ctx.registry for it in payload_items(q)]
+        if len(processed) == call["n"] and not pending and sorted(map(tuple, got)) != sorted(map(tuple, exp)):
+            mode = "imap" if call["mode"] == "o" else "imap_unordered"
+            out.append(("%s/%s/results-lost-call-cannot-complete" % (name, mode),
+                        "call %d: every input was processed and no result is pending, but only %r of %r were yielded and the consumer waits forever"
+                        % (ci, short(got), short(exp))))
     return out
 
 
